@@ -14,7 +14,9 @@ Range(s) == {s[i] : i \in DOMAIN s}
 
 (* ---------------------------------------------------------------- retention *)
 
-\* older than the retention days (an hour-granular age, see the trace driver)
+\* older than the retention days.  ageh is the age in hours of the time the backup's NAME carries;
+\* c.slack (hours) is subtracted first.  The driver uses slack 0 for both rules: a backup named by
+\* a date D counts as old as the start of D, the most permissive reading of "older than".
 Older(c, b) == c.days > 0 /\ b.ageh - c.slack >= 24 * c.days
 
 \* not among the newest maxBackups backups (size rule only)
@@ -30,8 +32,15 @@ MustRotate(c, cb) == c.rule = "size" /\ c.maxSize > 0 /\ cb > c.maxSize
 
 (* ---------------------------------------------------------------- step relation *)
 
+\* two directory listings hold the same records in the same backups
+SameFiles(bs1, bs2) ==
+  /\ Len(bs1) = Len(bs2)
+  /\ \A i \in DOMAIN bs1 : bs1[i].ts = bs2[i].ts /\ bs1[i].recs = bs2[i].recs
+
 \* A write of record `id` (0 = an empty record: nothing to find in the files) of `size` bytes
-\* takes (cur, cb, bks) to the observed (cur2, cb2, bks2).  Names of the violated clauses:
+\* takes (cur, cb, bks) to the observed (cur2, cb2, bks2).  A rotation may come before the
+\* record is appended (the record opens the new current file) or after it (the record closes
+\* the backup): the statement allows both.  Names of the violated clauses:
 StepFailed(c, cur, cb, bks, id, size, cur2, cb2, bks2) ==
   LET B       == Range(bks)
       B2      == Range(bks2)
@@ -41,18 +50,22 @@ StepFailed(c, cur, cb, bks, id, size, cur2, cb2, bks2) ==
       removed == {b \in B : b.ts \notin {x.ts : x \in B2}}
       rot     == fresh # {}
       rec     == IF id = 0 THEN << >> ELSE <<id>>
-  IN  \* the record is in the current file, complete, after everything written since the last rotation
-      (IF cur2 = (IF rot THEN rec ELSE cur \o rec) THEN {} ELSE {"current-file"})
-      \cup (IF cb2 = (IF rot THEN size ELSE cb + size) THEN {} ELSE {"current-bytes"})
+      after   == rot /\ id # 0 /\ cur2 = << >>      \* rotated after appending
+  IN  \* the record is somewhere
+      (IF id # 0 /\ id \notin (Range(cur2) \cup UNION {Range(b.recs) : b \in fresh}) THEN {"record-lost"} ELSE {})
+      \* it is in the current file (or closes the new backup), complete, after everything
+      \* written since the last rotation
+      \cup (IF cur2 = (IF rot THEN (IF after THEN << >> ELSE rec) ELSE cur \o rec) THEN {} ELSE {"current-file"})
+      \cup (IF cb2 = (IF rot THEN (IF after THEN 0 ELSE size) ELSE cb + size) THEN {} ELSE {"current-bytes"})
       \* a rotation moves exactly the old current file into exactly one new backup
-      \cup (IF rot => (Cardinality(fresh) = 1 /\ \A b \in fresh : b.recs = cur) THEN {} ELSE {"rotated-content"})
-      \cup (IF rot => \A b \in fresh : b.gz = c.gzip THEN {} ELSE {"compression"})
-      \* other backups are left as they are
-      \cup (IF kept \subseteq B THEN {} ELSE {"backup-changed"})
-      \* clean-up: only with a rotation, only outdated backups
-      \cup (IF removed # {} => rot THEN {} ELSE {"removed-without-rotation"})
+      \cup (IF rot => (Cardinality(fresh) = 1 /\ \A b \in fresh : b.recs = (IF after THEN cur \o rec ELSE cur))
+              THEN {} ELSE {"rotated-content"})
+      \cup (IF (rot /\ c.gzip) => \A b \in fresh : b.gz THEN {} ELSE {"compression"})
+      \* other backups keep their records (they may get compressed: content-preserving)
+      \cup (IF \A b2 \in kept : \E b \in B : b.ts = b2.ts /\ b.recs = b2.recs THEN {} ELSE {"backup-changed"})
+      \* clean-up removes only outdated backups
       \cup (IF removed \subseteq Outdated(c, B \cup fresh) THEN {} ELSE {"removed-not-outdated"})
       \* size rule: beyond the maximum by at most one record
-      \cup (IF ~rot => ~MustRotate(c, cb) THEN {} ELSE {"size-bound"})
+      \cup (IF (~rot \/ after) => ~MustRotate(c, cb) THEN {} ELSE {"size-bound"})
 
 =============================================================================
